@@ -6,9 +6,14 @@
    The theorems speak about EVERY option set, every start state (stale .bak or
    not, whatever its content), every number of output documents, every fault
    position k (a natural number, not a bounded index), both fault modes (the
-   call raises before / in the middle of its effect) and both exception kinds.
-   The model is the code as repaired by the `fix:` commit of this property
-   (yaml-merge took its backup before prepare_for_dump). *)
+   call raises before / in the middle of its effect) and all four exception
+   classes (OSError, AssertionError, another Exception, a BaseException such as
+   KeyboardInterrupt), and about a serialiser that accepts or refuses the
+   document by itself.
+   The model is the code as repaired by the `fix:` commits of this property:
+   yaml-merge took its backup before prepare_for_dump; yaml-set restored the file
+   only after an AssertionError of the dumper; yaml-set's JSON save and
+   yaml-merge's writer truncated the file before serialising. *)
 From Coq Require Import List Bool Arith.
 From YP Require Import SaveProtocol SaveCli C17Spec SaveProofs.
 Import ListNotations.
@@ -30,11 +35,35 @@ Print Assumptions C17_prewrite_unchanged_set.
    I/O call fails: a failing run touched nothing. *)
 Theorem C17_set_failure_is_prewrite :
   forall (i : set_in) (s : fs),
-    get s Target <> None ->
+    s_dump_ok i = true -> get s Target <> None ->
     failed (o_status (set_main i None s)) ->
     untouched s (o_fs (set_main i None s)) /\ o_trace (set_main i None s) = [].
 Proof. exact set_failure_is_prewrite. Qed.
 Print Assumptions C17_set_failure_is_prewrite.
+
+(* ... and with a serialiser that may refuse the changed document (the new
+   input s_dump_ok): EVERY non-zero end of yaml-set in which no I/O call fails
+   leaves the target file and the --output name as they were, and no backup file
+   has appeared (a run that got as far as the restore path removes the backup it
+   made, and a stale one with it). *)
+Theorem C17_set_failure_keeps_target :
+  forall (i : set_in) (s : fs),
+    get s Target = Some Orig -> start_ok s ->
+    failed (o_status (set_main i None s)) ->
+    target_kept_nothing_appeared s (o_fs (set_main i None s)).
+Proof. exact set_failure_keeps_target. Qed.
+Print Assumptions C17_set_failure_keeps_target.
+
+(* a document JSON cannot represent is found (json.dumps) before the backup is
+   taken and before the file is opened: nothing is touched, whatever faults are
+   armed *)
+Theorem C17_set_unserialisable_json_untouched :
+  forall (i : set_in) (f f2 : option fault) (s : fs),
+    s_dump_ok i = false -> s_json i = true -> start_ok s ->
+    let o := set_main2 i f f2 s in
+    untouched s (o_fs o) /\ failed (o_status o) /\ forallb only_looks (o_trace o) = true.
+Proof. exact set_unserialisable_json_untouched. Qed.
+Print Assumptions C17_set_unserialisable_json_untouched.
 
 (* yaml-merge: a load failure, a merge or anchor conflict (any non-zero
    exit_state), or a result that cannot be prepared for dumping leaves the file
@@ -56,7 +85,18 @@ Theorem C17_merge_failure_is_prewrite :
 Proof. exact merge_failure_is_prewrite. Qed.
 Print Assumptions C17_merge_failure_is_prewrite.
 
-(* The side condition of the last theorem is needed: --overwrite NEW --backup
+(* a merged result the serialiser refuses (ruamel's dumper raising on it) is
+   found while rendering into memory: before the backup, before the output file
+   is opened *)
+Theorem C17_merge_unserialisable_untouched :
+  forall (i : merge_in) (s : fs),
+    start_ok s -> m_dump_ok i = false ->
+    let o := merge_main i None s in
+    untouched s (o_fs o) /\ failed (o_status o) /\ forallb only_looks (o_trace o) = true.
+Proof. exact merge_unserialisable_untouched. Qed.
+Print Assumptions C17_merge_unserialisable_untouched.
+
+(* The side condition of the last theorem but one is needed: --overwrite NEW --backup
    with no NEW to copy fails inside the save (copy2 raises) after a stale
    NEW.bak was removed.  Nothing of the user's target is lost (there is none). *)
 Theorem C17_merge_backup_of_nothing_refuted :
@@ -75,8 +115,8 @@ Proof. exact output_never_replaces. Qed.
 Print Assumptions C17_output_never_replaces.
 
 Theorem C17_output_kept_by_save :
-  forall (backup json : bool) (n : nat) (f : option fault) (s : fs),
-    get s Output <> None -> output_kept s (o_fs (save (CMerge ToOutput backup json n) f s)).
+  forall (backup json : bool) (n : nat) (ok : bool) (f : option fault) (s : fs),
+    get s Output <> None -> output_kept s (o_fs (save (CMerge ToOutput backup json n ok) f s)).
 Proof. exact output_kept_by_save. Qed.
 Print Assumptions C17_output_kept_by_save.
 
@@ -86,20 +126,30 @@ Print Assumptions C17_output_kept_by_save.
    pre-image and the target the complete new document *)
 Theorem C17_bak_is_preimage :
   forall (c : cfg) (s : fs),
-    cfg_backup c = true -> get s Target = Some Orig ->
+    cfg_backup c = true -> cfg_dump_ok c = true -> get s Target = Some Orig ->
     o_status (save c None s) = SOk /\ bak_is_preimage (o_fs (save c None s)).
 Proof. exact bak_is_preimage_holds. Qed.
 Print Assumptions C17_bak_is_preimage.
 
 (* if any single I/O call of the save fails -- at any position, before or in
-   the middle of its effect, as OSError or AssertionError -- the target or its
-   backup still holds the complete original bytes *)
+   the middle of its effect, with an exception of any class; or the serialiser
+   refuses the document by itself, or both -- the target or its backup still
+   holds the complete original bytes *)
 Theorem C17_one_copy_survives :
   forall (c : cfg) (f : option fault) (s : fs),
     cfg_backup c = true -> get s Target = Some Orig ->
     one_intact_copy (o_fs (save c f s)).
 Proof. exact one_copy_survives. Qed.
 Print Assumptions C17_one_copy_survives.
+
+(* ... and even when a call of yaml-set's restore path fails after the dump
+   failed (two failures) *)
+Theorem C17_one_copy_survives_two_faults :
+  forall (c : cfg) (f f2 : option fault) (s : fs),
+    cfg_backup c = true -> get s Target = Some Orig ->
+    one_intact_copy (o_fs (save2 c f f2 s)).
+Proof. exact one_copy_survives2. Qed.
+Print Assumptions C17_one_copy_survives_two_faults.
 
 (* the general lemma: ANY sequence of calls in which copy2(target, bak)
    completes before the first call that can damage the target, and no later call
@@ -111,16 +161,72 @@ Theorem C17_backup_first_general :
 Proof. exact backup_first_safe. Qed.
 Print Assumptions C17_backup_first_general.
 
-(* the hypothesis "backup on" matters: without --backup a failed dump loses the
-   file (the property text claims nothing else) *)
+(* ---- yaml-set's restore path (with or without --backup) ---------------------------------- *)
+
+(* the dump step of the YAML save fails -- the dumper raises by itself, or an
+   injected failure of either mode and of ANY Exception class hits that call --
+   and no call of the restore path fails: the target holds the complete original
+   bytes again, for every start state; the run ends non-zero; the backup made a
+   moment ago is removed; nothing else is touched *)
+Theorem C17_dump_failure_restores :
+  forall (backup ok : bool) (f : option fault) (s : fs),
+    get s Target = Some Orig -> dump_step_fails backup ok f s ->
+    let o := save (CSet backup false ok) f s in
+    get (o_fs o) Target = Some Orig /\ failed (o_status o)
+    /\ get (o_fs o) Output = get s Output
+    /\ get (o_fs o) Bak = (if backup then None else get s Bak)
+    /\ get (o_fs o) Tmp = None.
+Proof. exact dump_failure_restores. Qed.
+Print Assumptions C17_dump_failure_restores.
+
+(* its status: 3 (log.critical) after an AssertionError, 1 (re-raise) otherwise *)
+Theorem C17_dump_failure_status :
+  forall (backup ok : bool) (f : option fault) (s : fs),
+    get s Target = Some Orig -> dump_step_fails backup ok f s ->
+    o_status (save (CSet backup false ok) f s) =
+      match f with
+      | Some ft => match f_kind ft with FAssert => SExit 3 | _ => SCrash end
+      | None => SCrash
+      end.
+Proof. exact dump_failure_status. Qed.
+Print Assumptions C17_dump_failure_status.
+
+(* the hypothesis "backup on" of C17_one_copy_survives matters (the property
+   text promises nothing without --backup).  Since the repair a failed dump alone
+   no longer loses the file; ONE failing call still does when it is the
+   truncating open itself, which stands outside the try block ... *)
 Theorem C17_no_backup_no_promise :
   exists (c : cfg) (f : fault) (s : fs),
     cfg_backup c = false /\ get s Target = Some Orig /\ ~ one_intact_copy (o_fs (save c (Some f) s)).
 Proof. exact no_backup_no_promise_witness. Qed.
 
+(* ... and these are the only single failures of yaml-set's YAML save that lose
+   the file without --backup: the truncating open raising after it truncated, or
+   the dump interrupted by something that is not an Exception *)
+Theorem C17_no_backup_single_fault_losses :
+  forall (f : option fault) (s : fs),
+    get s Target = Some Orig ->
+    failed (o_status (save (CSet false false true) f s)) ->
+    ~ one_intact_copy (o_fs (save (CSet false false true) f s)) ->
+    exists ft, f = Some ft /\
+      ((at_k ft = 3 /\ f_mode ft = Mid) \/ (at_k ft = 4 /\ f_kind ft = FInterrupt)).
+Proof. exact no_backup_single_fault_losses. Qed.
+Print Assumptions C17_no_backup_single_fault_losses.
+
+(* the old witness restated: after a failed dump the loss needs a SECOND failure,
+   inside the restore path (the copy back interrupted half way) -- whether the
+   dump failure was injected or the dumper's own *)
+Theorem C17_no_backup_second_fault_loses :
+  exists (f f2 : fault) (s : fs),
+    get s Target = Some Orig /\ dump_step_fails false true (Some f) s
+    /\ ~ one_intact_copy (o_fs (save2 (CSet false false true) (Some f) (Some f2) s))
+    /\ ~ one_intact_copy (o_fs (save (CSet false false false) (Some f2) s)).
+Proof. exact no_backup_second_fault_witness. Qed.
+
 (* ---- the same facts over the whole finite part of the domain, by computation ----------------- *)
-(* every yaml-set / rotate option set x stale x every position up to past the
-   end x both modes x both kinds (a cross-check of the general proof) *)
+(* every yaml-set / rotate / merge option set x serialiser verdict x stale x every
+   position up to past the end x both modes x four classes (x the same for a
+   second fault of yaml-set) -- a cross-check of the general proof *)
 Theorem C17_finite_domain_check : finite_domain_check = true.
 Proof. exact finite_domain_check_true. Qed.
 
@@ -128,42 +234,51 @@ Proof. exact finite_domain_check_true. Qed.
 
 (* a failed --check on a two-node match ends with status 20 before the write *)
 Example C17_ex_check_fails :
-  set_pre (mkset true true false true false None true false ROk 2 (Some [CkMatch; CkMismatch]) None AValue ROk false)
+  set_pre (mkset true true false true false None true false ROk 2 (Some [CkMatch; CkMismatch]) None AValue ROk false true)
   = Some (SExit 20).
 Proof. reflexivity. Qed.
 
 (* an unmatched --mustexist path ends with status 1; without --mustexist the
    same failure is ignored and the run reaches the write *)
 Example C17_ex_unmatched :
-  set_pre (mkset true true false true false None true true RCaught 0 None None AValue ROk false) = Some (SExit 1)
-  /\ set_pre (mkset true true false true false None true false RCaught 0 None None AValue ROk false) = None.
+  set_pre (mkset true true false true false None true true RCaught 0 None None AValue ROk false true) = Some (SExit 1)
+  /\ set_pre (mkset true true false true false None true false RCaught 0 None None AValue ROk false true) = None.
 Proof. split; reflexivity. Qed.
 
 (* a merge conflict in the third file: exit_state 13, nothing written *)
 Example C17_ex_merge_conflict :
   merge_pre (mkmerge true true ToOverwrite true false
                [mkmfile true 1 (MCode 0); mkmfile true 1 (MCode 0); mkmfile true 1 (MCode 13)]
-               None true (MCode 0) ROk 1) = Some (SExit 13).
+               None true (MCode 0) ROk 1 true) = Some (SExit 13).
 Proof. reflexivity. Qed.
 
 (* the successful yaml-set --backup over a stale .bak: the eight calls, and the end state *)
 Example C17_ex_set_backup_trace :
-  save (CSet true false) None (init_fs true true false)
+  save (CSet true false true) None (init_fs true true false)
   = mkout (mkfs (Some New) (Some Orig) None None)
           [Exists Bak; Remove Bak; Copy2 Target Bak; MkTmp; OpenRead Target; CopyObj Target Tmp;
            OpenTrunc Target; Dump Target true]
           SOk.
 Proof. reflexivity. Qed.
 
-(* the dump fails half way with an OSError: the target is damaged, the backup intact *)
+(* the dump is interrupted half way (KeyboardInterrupt): the target is damaged, the backup intact *)
 Example C17_ex_fault_mid_dump :
-  o_fs (save (CSet true false) (Some (mkfault 7 Mid FOs)) (init_fs true true false))
+  o_fs (save (CSet true false true) (Some (mkfault 7 Mid FInterrupt)) (init_fs true true false))
   = mkfs (Some Partial) (Some Orig) None None.
+Proof. reflexivity. Qed.
+
+(* the dump fails half way with an OSError: since the repair the restore path, status 1 *)
+Example C17_ex_oserror_restore :
+  save (CSet true false true) (Some (mkfault 7 Mid FOs)) (init_fs true true false)
+  = mkout (mkfs (Some Orig) None None None)
+          [Exists Bak; Remove Bak; Copy2 Target Bak; MkTmp; OpenRead Target; CopyObj Target Tmp;
+           OpenTrunc Target; Dump Target true; OpenTrunc Target; CopyObj Tmp Target; Remove Bak]
+          SCrash.
 Proof. reflexivity. Qed.
 
 (* the dump fails with an AssertionError: restore path, backup removed, status 3 *)
 Example C17_ex_assert_restore :
-  save (CSet true false) (Some (mkfault 7 Mid FAssert)) (init_fs true true false)
+  save (CSet true false true) (Some (mkfault 7 Mid FAssert)) (init_fs true true false)
   = mkout (mkfs (Some Orig) None None None)
           [Exists Bak; Remove Bak; Copy2 Target Bak; MkTmp; OpenRead Target; CopyObj Target Tmp;
            OpenTrunc Target; Dump Target true; OpenTrunc Target; CopyObj Tmp Target; Remove Bak]
@@ -172,13 +287,13 @@ Proof. reflexivity. Qed.
 
 (* the copy itself is interrupted after the stale .bak was removed: the target is intact *)
 Example C17_ex_fault_mid_copy :
-  o_fs (save (CMerge ToOverwrite true true 3) (Some (mkfault 3 Mid FOs)) (init_fs true true false))
+  o_fs (save (CMerge ToOverwrite true true 3 true) (Some (mkfault 6 Mid FOs)) (init_fs true true false))
   = mkfs (Some Orig) (Some Partial) None None.
 Proof. reflexivity. Qed.
 
 (* an existing --output file: refused after the exists() call *)
 Example C17_ex_output_exists :
-  save (CMerge ToOutput false false 1) None (init_fs false false true)
+  save (CMerge ToOutput false false 1 true) None (init_fs false false true)
   = mkout (init_fs false false true) [Exists Output] (SExit 1).
 Proof. reflexivity. Qed.
 
@@ -188,3 +303,69 @@ Example C17_ex_backup_first :
 Proof.
   exists [Exists Bak; Remove Bak], [OpenTrunc Target; Dump Target true]; repeat split.
 Qed.
+
+(* the dump fails with a TypeError half way, no --backup: the hypotheses of
+   C17_dump_failure_restores hold; the 8 calls; the file is back; status 1 *)
+Example C17_ex_dump_typeerror_restored :
+  dump_step_fails false true (Some (mkfault 4 Mid FOther)) (init_fs true true false)
+  /\ save (CSet false false true) (Some (mkfault 4 Mid FOther)) (init_fs true true false)
+     = mkout (mkfs (Some Orig) (Some Stale) None None)
+             [MkTmp; OpenRead Target; CopyObj Target Tmp; OpenTrunc Target; Dump Target true;
+              OpenTrunc Target; CopyObj Tmp Target]
+             SCrash.
+Proof.
+  split; [right; eexists; split; [reflexivity|]; split; [reflexivity | discriminate] | reflexivity].
+Qed.
+
+(* the dumper itself refuses the document (yaml-set -g a -T '!x' on `a: 1`), with
+   --backup over a stale .bak: restored, the backup removed, status 1 *)
+Example C17_ex_dumper_refuses_restored :
+  dump_step_fails true false None (init_fs true true false)
+  /\ save (CSet true false false) None (init_fs true true false)
+     = mkout (mkfs (Some Orig) None None None)
+             [Exists Bak; Remove Bak; Copy2 Target Bak; MkTmp; OpenRead Target; CopyObj Target Tmp;
+              OpenTrunc Target; Dump Target false; OpenTrunc Target; CopyObj Tmp Target; Remove Bak]
+             SCrash.
+Proof. split; [left; split; reflexivity | reflexivity]. Qed.
+
+(* a KeyboardInterrupt inside the dump is no Exception: no restore *)
+Example C17_ex_dump_interrupted :
+  save (CSet false false true) (Some (mkfault 4 Mid FInterrupt)) (init_fs true false false)
+  = mkout (mkfs (Some Partial) None None None)
+          [MkTmp; OpenRead Target; CopyObj Target Tmp; OpenTrunc Target; Dump Target true] SCrash.
+Proof. reflexivity. Qed.
+
+(* the restore path's own copy fails after an AssertionError of the dump: not
+   status 3 but the traceback's 1; with --backup the .bak still holds the original *)
+Example C17_ex_restore_path_fails :
+  save2 (CSet true false true) (Some (mkfault 6 Mid FAssert)) (Some (mkfault 8 Mid FOs)) (init_fs true false false)
+  = mkout (mkfs (Some Partial) (Some Orig) None None)
+          [Exists Bak; Copy2 Target Bak; MkTmp; OpenRead Target; CopyObj Target Tmp; OpenTrunc Target;
+           Dump Target true; OpenTrunc Target; CopyObj Tmp Target]
+          SCrash.
+Proof. reflexivity. Qed.
+
+(* yaml-set on a JSON target whose document holds a complex key: json.dumps
+   raises before anything is touched (hypotheses of C17_set_unserialisable_json_untouched) *)
+Example C17_ex_set_json_unserialisable :
+  set_main (mkset true true false true true None true false ROk 1 None None AValue ROk false false) None
+           (init_fs true true false)
+  = mkout (init_fs true true false) [Render false] SCrash.
+Proof. reflexivity. Qed.
+
+(* yaml-merge --overwrite --backup of a result the dumper refuses: only exists()
+   and the rendering happened (hypotheses of C17_merge_unserialisable_untouched) *)
+Example C17_ex_merge_unserialisable :
+  merge_main (mkmerge true true ToOverwrite true false [mkmfile true 1 (MCode 0); mkmfile true 1 (MCode 0)]
+                      None true (MCode 0) ROk 1 false) None (init_fs true true false)
+  = mkout (init_fs true true false) [Exists Target; Render false] SCrash.
+Proof. reflexivity. Qed.
+
+(* the successful yaml-merge --overwrite --backup of two JSON documents: rendered
+   first, then the backup, then open + write *)
+Example C17_ex_merge_trace :
+  save (CMerge ToOverwrite true true 2 true) None (init_fs true false false)
+  = mkout (mkfs (Some New) (Some Orig) None None)
+          [Exists Target; Render true; Render true; Exists Bak; Copy2 Target Bak; OpenTrunc Target; WriteText Target]
+          SOk.
+Proof. reflexivity. Qed.
